@@ -33,9 +33,21 @@ def result_fields(res):
                 undef=sx.zbool(res.undefined_error))
 
 
-def scenario_actions(w, A):
-    """put the action under test into the scenario definition so that action spaces contain it"""
+def scenario_actions(w, A, decoys=False):
+    """put the action under test into the scenario definition so that action spaces contain it;
+    decoys: further definitions for the same OS on the other services / processes"""
     import nasim.scenarios.utils as u
+    if decoys:
+        for s_ in w.services:
+            if not (A.kind == 'exploit' and s_ == A.name):
+                w.scenario_dict[u.EXPLOITS]['e_decoy_' + s_] = {
+                    u.EXPLOIT_SERVICE: s_, u.EXPLOIT_OS: A.os if A.kind == 'exploit' else None,
+                    u.EXPLOIT_PROB: 0.5, u.EXPLOIT_COST: 7, u.EXPLOIT_ACCESS: 1}
+        for p_ in w.procs:
+            if not (A.kind == 'privesc' and p_ == A.name):
+                w.scenario_dict[u.PRIVESCS]['pe_decoy_' + p_] = {
+                    u.PRIVESC_PROCESS: p_, u.PRIVESC_OS: A.os if A.kind == 'privesc' else None,
+                    u.PRIVESC_PROB: 0.5, u.PRIVESC_COST: 9, u.PRIVESC_ACCESS: 2}
     if A.kind == 'exploit':
         w.scenario_dict[u.EXPLOITS]['e_x'] = {
             u.EXPLOIT_SERVICE: A.name, u.EXPLOIT_OS: A.os, u.EXPLOIT_PROB: A.prob,
